@@ -211,6 +211,47 @@ def _it(T, x):
     return complex(x) if np.iscomplexobj(x) else float(x)
 
 
+def case_pinv_product(T, shapes, alg):
+    """pinv of a lazy product whose outer factors are square and whose interior factors are not: the pseudo-inverse of a product is NOT the
+    reversed product of the pseudo-inverses then.  First factor symbolic, the others generic rational (full rank)."""
+    from fractions import Fraction as Fr
+    P_ = _pinvmod()
+    dt = 'float64'
+    mats, facs = [], []
+    cnt = 3
+    for i, (m, n) in enumerate(shapes):
+        if i == 0:
+            F_ = T.arr("F", (m, n), dt)
+        else:
+            rows = []
+            for a in range(m):
+                row = []
+                for b_ in range(n):
+                    row.append(K.cst(T, Fr((cnt * 7) % 13 - 6, 1 + cnt % 3) + (4 if a == b_ else 0)))
+                    cnt += 1
+                rows.append(row)
+            F_ = K.mat(T, rows, dt)
+        mats.append(F_)
+        facs.append(ops.Dense(F_))
+    M = mats[0]
+    op = facs[0]
+    for F_, f in zip(mats[1:], facs[1:]):
+        M = M @ F_
+        op = op @ f
+    m, n = M.shape
+    b = T.arr("b", (m, ), dt)
+    MH = M.T
+    if m <= n:
+        want = MH @ K.exact_solve(T, M @ MH, b.reshape(m, 1)).reshape(-1)
+    else:
+        want = K.exact_solve(T, MH @ M, (MH @ b).reshape(n, 1)).reshape(-1)
+    Pinv = P_.pinv(op) if alg == "default" else P_.pinv(op, {"Auto": cola.linalg.Auto(), "LSTSQ": P_.LSTSQ()}[alg])
+    T.check(f"pinv({alg}) of a product:shape", tuple(Pinv.shape) == (n, m), f"{Pinv.shape}")
+    x = Pinv @ b
+    T.eq(f"pinv({alg}) of a product @ b == M^+ b", x, want, dtype=False)
+    T.eq(f"pinv({alg}) of a product: normal equations", MH @ (M @ x - b), K.zeros_like_mode(T, (n, ), dt), dtype=False)
+
+
 def case_pinv_rules(T, kind):
     P_ = _pinvmod()
     dt = 'float64'
@@ -241,6 +282,10 @@ def case_pinv_rules(T, kind):
 
 def cases(tier, seed):
     out = []
+    for nm, shp in (("sq@wide@sq", [(2, 2), (2, 3), (3, 3)]), ("sq@tall@sq", [(3, 3), (3, 2), (2, 2)]), ("sq@wide@tall@sq", [(2, 2), (2, 3), (3, 2), (2, 2)]),
+                    ("sq@sq", [(2, 2), (2, 2)]), ("tall@wide", [(2, 1), (1, 2)]) if False else ("wide@sq", [(2, 3), (3, 3)]), ("sq@sq@sq", [(2, 2), (2, 2), (2, 2)])):
+        for alg in ("default", "LSTSQ"):
+            out.append((f"pinv-product:{nm}:{alg}", case_pinv_product, dict(shapes=shp, alg=alg), dict(partial_ok=True)))
     shapes = [(2, 2), (3, 2), (2, 3), (3, 3), (1, 2), (2, 1)]
     for (m, n) in shapes:
         out.append((f"svd:{m}x{n}", case_svd, dict(m=m, n=n, complex_=False, algs=["Auto", "DenseSVD"])))
